@@ -40,7 +40,7 @@ struct Spec {
     /// setter once more with the same content
     followup: u8,
     /// order of the attested key's parameters: 0 as the builder emits them (crv, x, y), 1 reversed,
-    /// 2 rotated - a COSE key is a map, an imported key may list its members in any order; 3 with a kid, 4 with key_ops, 5 with a base IV
+    /// 2 rotated - a COSE key is a map, an imported key may list its members in any order; 3 with a kid, 4 with key_ops, 5 with a base IV, 6 without the algorithm member, 7 a compressed point, 8 an Ed25519 key
     key_order: u8,
     /// the attested section is set on a value that already has one: 0 no, 1 the setter is called twice
     /// (another section first), 2 a value carrying another section is encoded, decoded, and the setter
@@ -82,13 +82,19 @@ fn gen(seed: u64, idx: u64) -> Spec {
         },
         ext: match rng.below(7) {
             0 => Ext::MakeBool(rng.bool()),
-            1 => Ext::MakeMc(rng.bytes(rng.clone().range(0, 80))),
+            1 => {
+                let l = if rng.chance(1, 6) { *rng.pick(&[990usize, 1008, 1009, 1024, 2000, 5000]) } else { rng.range(0, 80) };
+                Ext::MakeMc(rng.bytes(l))
+            }
             2 => Ext::MakeBoth(rng.bool(), rng.bytes(48)),
-            3 => Ext::Get(rng.bytes(rng.clone().range(0, 80))),
+            3 => {
+                let l = if rng.chance(1, 6) { *rng.pick(&[1000usize, 1008, 1009, 1024, 2000, 5000]) } else { rng.range(0, 80) };
+                Ext::Get(rng.bytes(l))
+            }
             _ => Ext::None,
         },
         followup: if rng.chance(1, 3) { rng.range(1, 4) as u8 } else { 0 },
-        key_order: if rng.chance(1, 3) { rng.range(1, 5) as u8 } else { 0 },
+        key_order: if rng.chance(1, 3) { rng.range(1, 8) as u8 } else { 0 },
         replaced: { let mut r = Rng::derive(seed, "c12repl", idx); if r.chance(1, 4) { r.range(1, 2) as u8 } else { 0 } },
     }
 }
@@ -130,6 +136,14 @@ fn build(s: &Spec, idx: u64) -> Result<Built, String> {
                 key.key_ops.insert(coset::KeyOperation::Assigned(iana::KeyOperation::Verify));
             }
             5 => key.base_iv = vec![7; 8],
+            // shorter encodings than the usual 77 bytes: no algorithm member, a compressed point
+            // (y given by its sign), an Ed25519 key
+            6 => key.alg = None,
+            7 => {
+                let x = key.params.iter().find(|(l, _)| *l == coset::Label::Int(iana::Ec2KeyParameter::X as i64)).and_then(|(_, v)| v.as_bytes().cloned()).unwrap_or_default();
+                key = CoseKeyBuilder::new_ec2_pub_key_y_sign(iana::EllipticCurve::P_256, x, true).build();
+            }
+            8 => key = CoseKeyBuilder::new_okp_key().algorithm(iana::Algorithm::EdDSA).param(iana::OkpKeyParameter::Crv as i64, ciborium::Value::from(iana::EllipticCurve::Ed25519 as i64)).param(iana::OkpKeyParameter::X as i64, ciborium::Value::Bytes(vec![0x42; 32])).build(),
             _ => {}
         }
         key_bytes = key.clone().to_vec().map_err(|e| format!("{e:?}"))?;
